@@ -160,6 +160,16 @@ impl Check for C11 {
             ps.filter = FilterKind::Basic(0.25);
             spec.ports.push(ps);
         }
+        // in a quarter of the runs a further port of the instance sits on the parent's segment
+        // (redundant attachment): it hears everything the slave port hears, possibly later
+        let dual_parent = ch.chance(S_CFG, 1, 4);
+        if dual_parent {
+            let mut ps = spec.ports[0].clone();
+            ps.segment = spec.ports[0].segment;
+            port_logs.push(ps.announce_log);
+            spec.ports.push(ps);
+        }
+        let dual_port = spec.ports.len() - 1;
         let configured = spec.time_props.clone();
         w.add_node(spec, ch);
         let mut parent = RefMaster::new(10, 0, Pid::new(PARENT_ID, 1), random_gm(ch, PARENT_ID, 10), log);
@@ -180,6 +190,7 @@ impl Check for C11 {
             let at = ch.choose(S_WORK, (end / US) as u64) as u128 * US;
             w.schedule_script(at, TAG_USER + ch.weighted(S_WORK, &[5, 2, 2, 2]) as u64, k, 0);
         }
+        let mut stale_copy: Option<(u16, GmData)> = None;
         let mut emitted_seen = 0usize;
         let mut rx_seen = 0usize;
         let mut viol: Vec<(String, String, String)> = Vec::new();
@@ -204,7 +215,25 @@ impl Check for C11 {
                     }
                 }
                 Stepped::Script { tag, .. } => match tag - TAG_USER {
+                    10 => {
+                        // late copy of the parent's previous Announce reaches the port that is not slave
+                        if let (Some((old_seq, old_gm)), Some(sp)) = (stale_copy.take(), w.nodes[0].slave_port()) {
+                            if dual_parent && (sp == 0 || sp == dual_port) {
+                                let target = if sp == 0 { dual_port } else { 0 };
+                                let f = announce_frame(parent.pid, old_seq, &old_gm, 0, 0, parent.announce_log);
+                                w.inject(0, target, false, f.encode(), 0, None);
+                                w.out.fault("late_copy_of_previous_parent_announce_on_sibling_port");
+                                changes.push(format!("t={:.2}s late copy of the parent's previous Announce (seq {old_seq}) delivered to port {target}", tt_to_secs(w.now())));
+                            }
+                        }
+                    }
                     0 => {
+                        if dual_parent && parent.active && stale_copy.is_none() {
+                            stale_copy = Some((parent.seq_announce.wrapping_sub(1), parent.gm.clone()));
+                            // after the parent's next Announce (new contents) has certainly been handled
+                            let at = w.now() + HostPort::interval_units(parent.announce_log) * 5 / 4 + i_units / 8;
+                            w.schedule_script(at, TAG_USER + 10, 0, 0);
+                        }
                         let mut g = random_gm(ch, PARENT_ID, parent.gm.priority1);
                         if ch.chance(S_WORK, 3, 4) {
                             g.identity = parent.gm.identity;
